@@ -234,7 +234,8 @@ QSolOk(x, p, g, H, qs) ==
   /\ BigApprox(Scale(qs.awp, 4), A, BigOf(20000), 30)
   /\ BigApprox(Scale(qs.Q, 18), G, Scale(1, 18), 50)
   \* q = Q / A_ref (10^-4 * 10^-2 -> 10^-6 ; Q 10^-2)
-  /\ g.aref <= 0 \/ BigApprox(BigProd2(qs.q, g.aref), Scale(qs.Q, 4), BigOf(g.aref + 100), 30)
+  \* (Q is logged to 0.01 kWh: half a unit of it, 5000 here, is part of the tolerance next to the rounding of q itself)
+  /\ g.aref <= 0 \/ BigApprox(BigProd2(qs.q, g.aref), Scale(qs.Q, 4), BigOf(g.aref + 5100), 30)
   /\ IF A = BigZero
      THEN qs.nonfinite = <<>>                      \* no window in scope: every figure is a finite number
      ELSE /\ MeanOk(qs.fshm, QW(x, p, "all", LAMBDA j : FshOf(p.wins[j])), A)
